@@ -166,6 +166,82 @@ theorem intValid_of_parse (s : Str) (v : ValidExpr) (hs : s.isEmpty = false) (hd
     rfl
   · cases hp
 
+/-! ## 3b. the declared restrictions of one argument are checked independently -/
+
+/-- invalidFunctionArgBool is reported exactly when the argument is a boolean expression and `<not-bool/>` is declared —
+whatever the `<valid>` text says and whatever the value of the argument is -/
+theorem argDecision_notBool (valid : Str) (notbool isBool : Bool) (known : Option Int) (r : ArgReport)
+    (h : argDecision valid notbool isBool known = some r) : r.notBool = (isBool && notbool) := by
+  unfold argDecision at h
+  simp only at h
+  split at h
+  · injection h with h; subst h; rfl
+  · cases h
+
+/-- the not-bool verdict does not depend on the `<valid>` verdict: two arguments that differ only in their `<valid>`
+text and their value get the same invalidFunctionArgBool decision -/
+theorem argDecision_notBool_independent (valid valid' : Str) (notbool isBool : Bool) (known known' : Option Int)
+    (r r' : ArgReport) (h : argDecision valid notbool isBool known = some r)
+    (h' : argDecision valid' notbool isBool known' = some r') : r.notBool = r'.notBool := by
+  rw [argDecision_notBool _ _ _ _ _ h, argDecision_notBool _ _ _ _ _ h']
+
+/-- the value message of invalidFunctionArg is reported exactly when the Known value is refused by isIntArgValid —
+whatever `<not-bool/>` says and whether or not the argument is a boolean expression -/
+theorem argDecision_invalidValue (valid : Str) (notbool isBool : Bool) (known : Option Int) (r : ArgReport)
+    (h : argDecision valid notbool isBool known = some r) : r.invalidValue = knownRefused valid known := by
+  unfold argDecision at h
+  simp only at h
+  split at h
+  · rename_i a rr ha hr
+    injection h with h; subst h
+    simp only
+    unfold knownRefused
+    cases known with
+    | none => simp at ha; simpa using ha.symm
+    | some x =>
+      simp only at ha ⊢
+      cases hv : isIntArgValid valid x with
+      | err => rw [hv] at ha; cases ha
+      | ok b => rw [hv] at ha; injection ha with ha; subst ha; cases b <;> rfl
+  · cases h
+
+theorem argDecision_invalidValue_independent (valid : Str) (notbool notbool' isBool isBool' : Bool) (known : Option Int)
+    (r r' : ArgReport) (h : argDecision valid notbool isBool known = some r)
+    (h' : argDecision valid notbool' isBool' known = some r') : r.invalidValue = r'.invalidValue := by
+  rw [argDecision_invalidValue _ _ _ _ _ h, argDecision_invalidValue _ _ _ _ _ h']
+
+/-- for an expression of the grammar with int64 bounds the decision never fails and both verdicts are as declared:
+value message ⇔ the Known value lies outside the ranges; bool message ⇔ boolean expression ∧ not-bool -/
+theorem argDecision_render (v : ValidExpr) (hb : v.bounded = true) (notbool isBool : Bool) (known : Option Int) :
+    ∃ r, argDecision v.render notbool isBool known = some r
+      ∧ r.notBool = (isBool && notbool)
+      ∧ (r.invalidValue = true ↔ ∃ x, known = some x ∧ ¬ v.mem x) := by
+  have hx : ∀ x, isIntArgValid v.render x = .ok (decide (v.mem x)) := intValid_eq_partial v hb
+  have key : ∃ r, argDecision v.render notbool isBool known = some r := by
+    unfold argDecision
+    cases known with
+    | none =>
+      simp only [hx]
+      by_cases c : (isBool && !notbool) = true
+      · simp only [c, if_true]
+        by_cases m0 : v.mem 0 <;> by_cases m1 : v.mem 1 <;> simp [m0, m1]
+      · simp [c]
+    | some x =>
+      simp only [hx]
+      by_cases c : (isBool && !notbool) = true
+      · simp only [c, if_true]
+        by_cases m0 : v.mem 0 <;> by_cases m1 : v.mem 1 <;> simp [m0, m1]
+      · simp [c]
+  obtain ⟨r, hr⟩ := key
+  refine ⟨r, hr, argDecision_notBool _ _ _ _ _ hr, ?_⟩
+  rw [argDecision_invalidValue _ _ _ _ _ hr]
+  unfold knownRefused
+  cases known with
+  | none => simp
+  | some x =>
+    simp only [hx]
+    by_cases m : v.mem x <;> simp [m]
+
 /-! ## 4. Library::isFloatArgValid with integer bounds -/
 
 /-- For every expression whose bounds are integers of magnitude < 2^53 (exactly representable) and **every**
